@@ -30,7 +30,7 @@ import re
 import impl
 import lib
 
-COQ_TARGETS = ["theories/Proofs/CapstoneLemmas.vo", "theories/Props/Capstone.vo"]
+COQ_TARGETS = ["theories/Proofs/CapstoneLemmas.vo", "theories/Props/Capstone.vo", "theories/Props/CapstoneTotal.vo"]
 THEOREMS = [
     "Capstone_constructions_commute", "Capstone_one_runtime", "Capstone_mechanism_is_reference",
     "Capstone_same_serdes_joint_law", "Capstone_refuted_joined_toys",
@@ -41,12 +41,21 @@ THEOREMS = [
     "Capstone_C06_wire", "Capstone_C06_heap",
     "Capstone_C08_first_acceptor",
     "Capstone_noop_forced", "Capstone_refuted_any_field", "Capstone_refuted_any_field_witness",
-    "Capstone_C01_roundtrip_with_any",
+    "Capstone_C01_roundtrip_with_any", "Capstone_with_any_validity", "Capstone_same_serdes_from_c14",
 ]
 EXAMPLES = ["Capstone_C01_instance", "Capstone_C01_instance_by_theorem", "Capstone_C01_text_instance",
             "Capstone_C02_instance", "Capstone_one_runtime_instance", "Capstone_history_instance",
             "Capstone_C03_C13_C06_instance", "Capstone_C08_instance", "Capstone_C02_from_coding_instance"]
-PROPS = [("Props/Capstone.v", THEOREMS)]
+TOTAL_THEOREMS = [
+    "Capstone_mechanism_total", "Capstone_mechanism_equiv_total", "Capstone_C01_roundtrip_total",
+    "Capstone_C01_union_fixpoint_total", "Capstone_C01_roundtrip_text_total", "Capstone_C01_any_history_total",
+    "Capstone_C02_roundtrip_total", "Capstone_C02_roundtrip_from_coding_total", "Capstone_C03_conforms_total",
+    "Capstone_C13_passthrough_total", "Capstone_C13_idempotent_total", "Capstone_C06_wire_total",
+    "Capstone_C06_heap_total", "Capstone_C08_first_acceptor_total", "Capstone_C01_roundtrip_with_any_total",
+]
+TOTAL_EXAMPLES = ["CapstoneTotal_C01_instance", "CapstoneTotal_C01_instance_by_theorem", "CapstoneTotal_C01_instance_fuel",
+                  "CapstoneTotal_C08_instance"]
+PROPS = [("Props/Capstone.v", THEOREMS), ("Props/CapstoneTotal.v", TOTAL_THEOREMS)]
 
 # the bytes of Capstone_C02_instance (orjson's form)
 EXPECTED_BYTES = b'[{"kids":[{"kids":[],"val":null}],"val":5},{"kids":[],"val":7}]'
@@ -166,7 +175,9 @@ def obligations(run: "lib.Run", props: bool = True, example: bool = True):
         for rel, thms in PROPS:
             run.check_props(rel, thms, timeout=900)
         src = open(os.path.join(lib.THEORIES, "Props", "Capstone.v")).read()
-        missing = [e for e in EXAMPLES if not re.search(r"Example\s+%s\b" % e, src) or f"Print Assumptions {e}." not in src]
+        src += open(os.path.join(lib.THEORIES, "Props", "CapstoneTotal.v")).read()
+        missing = [e for e in EXAMPLES + TOTAL_EXAMPLES
+                   if not re.search(r"Example\s+%s\b" % e, src) or f"Print Assumptions {e}." not in src]
         run.oblige("capstone:non-vacuity Examples (one instance satisfying all hypotheses of compositions 0, 1, 1b, 3) "
                    "stated and under Print Assumptions", not missing, "missing: " + ", ".join(missing))
     if example:
@@ -177,8 +188,11 @@ def obligations(run: "lib.Run", props: bool = True, example: bool = True):
         "ties of the components (leaf-tables / leaf-marshallers, core-io, bridge tie, json-writer / -reader / -codec, "
         "cachebridge histories, identity) and the three-way core correspondence; remaining premises per composition are "
         "classified in the header of Props/Capstone.v and in notes/capstone.md",
-        "capstone: `done (api_call ..) = true` premises are not dischargeable by a fuel bound yet: only the direction "
-        "mechanism-terminal => reference semantics is proved (C05), not its converse",
-        "capstone: environments with a typing.Any field are outside LeafBridge o C05Bridge (Capstone_refuted_any_field); "
-        "they are covered by the old sampled law records only",
+        "capstone: Props/CapstoneTotal.v restates the compositions with NO mechanism-termination premise (exists f0, forall "
+        "fuel >= f0 ...) from the completeness of the mechanism (Proofs/BuildComplete.v); its extra hypotheses are "
+        "orders_strict (decided per observed order table by BuildTables.orders_strict_ok inside orders_hyps_ok) and "
+        "defd orders T (the root has a row); termination of the REFERENCE semantics at the guards' fuel stays a premise "
+        "where the composition starts from marshal (no lemma derives `mar = Ok` from `valid`) and for the heap-level routine",
+        "capstone: classes with a typing.Any field are inside the compositions through the pass-through leaf kind LAny "
+        "(Capstone_C01_roundtrip_with_any); Capstone_refuted_any_field is about the previous construction",
     ]
